@@ -250,6 +250,14 @@ void ProcessCMD(
         DecodeLine(pCMDRecs, CMDRecCnt, EnvLine, ErrProc);
     }
 
+    /* Unprocessed[] has room for MAXPARAM arguments (and the one behind the
+       last, which an option taking an argument clears) */
+
+    if (argc > MAXPARAM) {
+        ErrProc(False, argv[MAXPARAM]);
+        argc = MAXPARAM;
+    }
+
     for (z = 0; z < argc; z++) {
         Unprocessed[z] = (z != 0);
     }
